@@ -275,15 +275,15 @@ Proof.
   pose proof (zlen_nonneg text) as Hlen0.
   assert (Hlen1 : 0 < zlen text).
   { destruct text; [congruence|]. rewrite zlen_cons. pose proof (zlen_nonneg text). lia. }
-  pose proof (wsub_u32 sq base) as Hoffu. fold off in Hoffu.
+  pose proof (wsub_u32 sq base) as Hoffu. fold off in Hoffu. unfold u32 in Hoffu.
   destruct (true_distance base rn sq R4 Tu) as [Hd Hle]; fold n off; try assumption;
     [unfold u32 in *; lia|unfold u32 in *; lia|].
   fold n off in Hd, Hle.
   unfold text_core. fold rn sq.
   (* the assert *)
   assert (Hassert : (is_in_rcv_window t sq || is_in_rcv_window t (wadd sq (zlen text))) = true).
-  { rewrite !in_window_spec in * by (try assumption; try apply wadd_u32; try apply wsub_u32).
-    fold rn in *. apply assert_holds; try assumption; lia. }
+  { rewrite !in_window_spec in W2 |- * by (try assumption; try apply wadd_u32; try apply wsub_u32).
+    fold rn in W2 |- *. apply assert_holds; try assumption; lia. }
   rewrite Hassert. cbn [negb]. rewrite Tsyn. cbn [b2z].
   replace (wsub (wsub rn sq) 0) with (n - off)
     by (rewrite Hd, wsub_spec; unfold u32, M32, SEQ_BOUND in *; lia).
@@ -291,7 +291,7 @@ Proof.
   set (already := Z.min (n - off) (zlen text)).
   set (accept := Z.min (zlen text - already) (65535 - zlen (in_text t))).
   set (piece := firstn (Z.to_nat accept) (skipn (Z.to_nat already) text)).
-  assert (Hacc : 0 <= accept /\ accept <= zlen text - already /\ n + accept <= off + zlen text).
+  assert (Hacc : 0 <= accept /\ accept <= zlen text - already /\ n + accept <= pv_lim pv).
   { subst accept already. lia. }
   assert (Hpiece : firstn (Z.to_nat n) (pv_sub pv) ++ piece = firstn (Z.to_nat (n + accept)) (pv_sub pv)).
   { destruct (Z.eq_dec accept 0) as [E0|Hn0].
